@@ -75,6 +75,9 @@ def spaces(tier, seed):
         # two-call histories inside the case: a string with another zone (or none) is parsed first
         Product("offsets-after-another-zone", {"first": FIRST, "off": offs, "spell": SPELL, "case": ["as-is"], "body": [0], "pos": ["end"], "lang": ["en"]}),
         Product("abbreviations-after-another-zone", {"first": FIRST, "ab": order, "case": ["as-is"], "body": [0], "pos": ["end"], "lang": ["en"]}),
+        Product("no-zone-lookalikes", {"d": ["15 March 2015", "2015-03-15", "March 15, 2015", "15/03/2015"], "sep": [" - ", " \u2013 ", " \u2014 ", ", ", " @ ", " at ", " -- "],
+                                       "off": offs + [37800, 47700, 1800], "lang": ["en", "auto"]},
+                note="no zone in the string: a separator (a dash with blanks around it ...) followed by a clock time whose digits equal a supported UTC offset"),
         Product("no-zone-after-a-zone", {"first": FIRST, "body": range(len(BODIES)), "lang": ["en"], "suffix": [""]}),
     ]
     if tier == "thorough":
@@ -85,11 +88,23 @@ def spaces(tier, seed):
 
 def run_case(sub, c):
     offs, order, abbr = table()
-    body, wall = BODIES[c["body"]]
+    body, wall = BODIES[c["body"]] if "body" in c else (None, None)
     st = None
     if "first" in c:
         api.outcome_of(api.gdd, ("1 March 2011 09:15 " + c["first"]).strip(), ["en"])
         sub = sub.split("-after-")[0]
+    if sub == "no-zone-lookalikes":
+        a = abs(c["off"]) % 86400
+        hh, mm = a // 3600, a % 3600 // 60
+        s = "%s%s%02d:%02d" % (c["d"], c["sep"], hh, mm)
+        wall = datetime(2015, 3, 15, hh, mm)
+        o = api.outcome_of(api.gdd, s, ["en"] if c["lang"] == "en" else None, None, None, {"DATE_ORDER": "DMY"})
+        if o[0] == "ok" and o[1].date_obj == wall and o[1].date_obj.tzinfo is None:
+            return "naive-ok", True, None
+        if o[0] == "ok" and o[1].date_obj is None:
+            return "not-parsed", False, None        # the statement is about results: an unparsed string yields nothing to be naive or aware
+        return "bad", True, {"cls": {"form": "no-zone-lookalike", "sep": c["sep"], "kind": "aware-or-wrong"}, "expected": wall,
+                             "observed": o[1:] if o[0] == "exc" else (o[1].date_obj, o[1].period), "detail": {"string": s}}
     if sub == "no-zone":
         s = body + c["suffix"]
         o = api.outcome_of(api.gdd, s, ["en"] if c["lang"] == "en" else None)
@@ -162,4 +177,4 @@ def run_case(sub, c):
 
 
 def describe(sub, c):
-    return {"body": BODIES[c["body"]][0]}
+    return {"body": BODIES[c["body"]][0]} if "body" in c else dict(c)
